@@ -41,7 +41,7 @@ fn value_of(i: usize) -> String {
 }
 
 fn text_of(i: usize, d: &Doc) -> String {
-    let words = if d.long { 520 + d.filler as u32 * 6 } else { d.filler as u32 * 4 };
+    let words = if d.long { 2600 + d.filler as u32 * 40 } else { d.filler as u32 * 4 };
     let filler = crate::gen::gen_text(i as u32 * 7 + 1, words, crate::gen::TextStyle::Words);
     if d.fact && d.fact_first {
         format!("{} works at {}. Start of note {i}. {filler}.", NAMES[d.name as usize % NAMES.len()], value_of(i))
@@ -111,6 +111,12 @@ pub fn check(c: &Case) -> CheckResult {
     }
     // cards
     let cards: Vec<_> = mem.memories().cards().to_vec();
+    if std::env::var_os("VERIF_TRACE").is_some() {
+        eprintln!("[trace] frames {} actual {:?}", mem.frame_count(), actual);
+        for c in &cards {
+            eprintln!("[trace] card {}:{}={:?} source_frame_id {}", c.entity, c.slot, c.value, c.source_frame_id);
+        }
+    }
     let mut with_cards = BTreeSet::new();
     for card in &cards {
         let Some(i) = (0..c.docs.len()).find(|i| card.value.contains(&format!("Uq{i}zco"))) else { continue };
